@@ -82,6 +82,16 @@ Json::Value gen() {
     a["count"] = std::to_string(R(0, 50));
     if (P(50)) a["lte"] = P(50) ? "true" : "false";
   }
+  // the control file the detector reads; a watched cgroup in which it is missing or unreadable at a
+  // tick has no value to compare then
+  std::string faultFile;
+  std::vector<std::string> faultModes = {"absent", "unreadable", "empty"};
+  if (det == "pressure_above" || det == "pressure_rising_beyond") faultFile = resource == "io" ? "io.pressure" : "memory.pressure";
+  if (det == "memory_above") faultFile = a.isMember("threshold_anon") ? "memory.stat" : "memory.current";
+  if (det == "nr_dying_descendants") faultFile = "cgroup.stat";
+  if (faultFile == "memory.stat" || faultFile == "cgroup.stat") faultModes = {"absent", "unreadable"};
+  if (!P(45)) faultFile.clear();
+  meta["fault_file"] = faultFile;
   sc["meta"] = meta;
   Json::Value rs(Json::objectValue);
   rs["name"] = "rs";
@@ -175,6 +185,13 @@ Json::Value gen() {
         } else if (what == 2 && exists[p]) {
           Cg* c = view.find(p);
           fill(*c);
+          if (!faultFile.empty()) {
+            if (c->faults.count(faultFile)) {
+              if (P(50)) c->faults.erase(faultFile);
+            } else if (P(25)) {
+              c->faults[faultFile] = oneOf(faultModes);
+            }
+          }
           Op op;
           op.op = "set";
           op.cg = *c;
@@ -253,7 +270,7 @@ Verdict run(const Json::Value& sc) {
   std::set<std::string> prevSet;
   int64_t lastReclaim = -1, lastMaybe = -1;
   int64_t prevPswpout = -1;
-  bool sawPswpoutGap = false;
+  bool sawPswpoutGap = false, sawUnavailable = false;
   int changes = 0;
   bool last = false;
   for (int t = 0; t < nticks && v.ok; t++) {
@@ -263,6 +280,12 @@ Verdict run(const Json::Value& sc) {
     if (a.isMember("cgroup")) watched = vpm::resolveArg(w, a["cgroup"].asString());
     std::string at = " at tick " + std::to_string(t) + " (t=" + std::to_string(now) + "ms), " + det + " " + jstr(a);
     bool expect = false, dontcare = false;
+    std::string faultFile = sc["meta"].get("fault_file", "").asString();
+    auto unavailable = [&](const Cg* c) {
+      bool u = !faultFile.empty() && c->faults.count(faultFile);
+      if (u) sawUnavailable = true;
+      return u;
+    };
     if (det == "pressure_above" || det == "pressure_rising_beyond") {
       // the cgroup under the most pressure (weighted 3:2:1); ties with
       // different verdicts are a don't-care
@@ -270,7 +293,12 @@ Verdict run(const Json::Value& sc) {
       std::vector<const Psi*> tops;
       for (auto& p : watched) {
         const Cg* c = w.find(p);
-        const Psi& psi = resource == "io" ? c->io_psi : c->mem_psi;
+        static const Psi kNoPsi = [] {
+          Psi z;
+          for (int i = 0; i < 3; i++) z.full[i] = z.some[i] = 0;
+          return z;
+        }();
+        const Psi& psi = unavailable(c) ? kNoPsi : (resource == "io" ? c->io_psi : c->mem_psi);
         long wgt = 3L * psi.full[0] + 2L * psi.full[1] + psi.full[2];
         if (wgt > best) {
           best = wgt;
@@ -319,7 +347,7 @@ Verdict run(const Json::Value& sc) {
       int64_t mx = 0;
       for (auto& p : watched) {
         const Cg* c = w.find(p);
-        int64_t u = anon ? c->statv("anon", 0) : c->mem_current;
+        int64_t u = unavailable(c) ? 0 : (anon ? c->statv("anon", 0) : c->mem_current);
         mx = std::max(mx, u);
       }
       bool exceed = mx > memThr;
@@ -377,6 +405,7 @@ Verdict run(const Json::Value& sc) {
       int64_t count = atoll(a["count"].asCString());
       bool lte = a.get("lte", "true").asString() == "true";
       for (auto& p : watched) {
+        if (unavailable(w.find(p))) continue; // nothing to compare
         int64_t nr = w.find(p)->nr_dying;
         if ((lte && nr <= count) || (!lte && nr > count)) expect = true;
       }
@@ -397,6 +426,7 @@ Verdict run(const Json::Value& sc) {
   if ((det == "swap_free" || det == "exists" || det == "nr_dying_descendants") && changes >= 2) v.nontrivial = true;
   v.labels.push_back(det);
   if (sawPswpoutGap) v.labels.push_back("pswpout_key_gap");
+  if (sawUnavailable) v.labels.push_back("watched_value_unavailable");
   return v;
 }
 
